@@ -33,6 +33,9 @@ type File struct {
 	Imports []Import
 	Type    *TypeDecl
 	Text    string
+	// simple type names used in this file that two or more OTHER packages of the project declare (settled, if at all,
+	// by an on-demand import): which type the tool attributes is not asserted, but it must be the same every time
+	AmbiguousNames []string
 }
 
 type Annotation struct {
